@@ -74,6 +74,13 @@ def make_scenarios(ctx, count):
                               rng.randint(0, 0xFFFF)])
             off = max(0, min(0xFFFF, off))
             q = nseq() if rng.random() < 0.95 else 0
+            if rng.random() < 0.2:
+                # another station asks while the first one's session is open; its request has its own numbering
+                m2 = (m + 1) % len(net.mappers)
+                q2 = (q * 7 + 0x1234) & 0xFFFF or 1
+                feed(W.qlt(net.own, net.mappers[m2], q2, typ, off, eth_src=net.bridges[m2] if rng.random() < 0.5 else None),
+                     ("call", typ, off, q2))
+                rep_other = True
             feed(W.qlt(net.own, net.mappers[m], q, typ, off, eth_src=net.bridges[m] if bridged else None),
                  ("call", typ, off, q))
             if rng.random() < 0.1:
